@@ -109,6 +109,18 @@ Theorem C10_crash_old_or_new : forall s0 s k, reachable s0 s ->
 Proof. exact crash_old_or_new. Qed.
 Print Assumptions C10_crash_old_or_new.
 
+(** a Store that fails part-way (write / sync / close / rename reports an error: ENOSPC, EFBIG,
+    EIO ...) has no effect: every key holds what it held, the temp file is removed, an error is
+    returned *)
+Theorem C10_failed_store_no_effect : forall s t s', step s (LFail t) = Some s' ->
+  (forall k, named_value s' k = named_value s k) /\
+  (exists k v, thr s' t = WErr k v) /\
+  (forall tmp, (exists k v i off, thr s t = WOpen k v tmp i off) \/ (exists k v i, thr s t = WSynced k v tmp i) \/
+               (exists k v i, thr s t = WClosed k v tmp i) -> dir s' (NTemp tmp) = None) /\
+  data s' = data s /\ log s' = log s.
+Proof. exact failed_store_no_effect. Qed.
+Print Assumptions C10_failed_store_no_effect.
+
 (** ** non-vacuity and witnesses *)
 Definition ka : str := [97%N].
 Definition kb : str := [98%N].
